@@ -248,6 +248,8 @@ def search(ctx):
                     for fam, call in (("set_many", lambda: hc.set_many({k: b"3" for k in ks})), ("get_many", lambda: hc.get_many(ks)),
                                       ("gets_many", lambda: hc.gets_many(ks))):
                         MemServer.calls = []
+                        # a server with a failure record may be inside its retry window: it is then legitimately not contacted at all
+                        pending = {hs.server_name(sv) for sv in hc._failed_clients}
                         call()
                         if list(hc.hasher.nodes) != nodes_before:
                             break
@@ -260,6 +262,8 @@ def search(ctx):
                             sv = ctx.oracle.call(5, list(hc.hasher.nodes), kk[1], 0)[1] if kk[0] == "ok" else None
                             exp_pairs.append((sv, repr(bare)))
                         n_probe += 1
+                        skipped = {sv for sv in pending if not any(g[0] == sv for g in got_pairs)}
+                        exp_pairs = [e for e in exp_pairs if e[0] not in skipped]
                         if got_pairs != sorted(exp_pairs):
                             found.append({"clause": "%s(%r): servers received %r, placement assigns %r" % (fam, ks, got_pairs[:8], sorted(exp_pairs)[:8]),
                                           "input": {"servers": repr(servers), "prefix": repr(prefix), "history": repr(hist), "keys": repr(ks)}, "size": len(hist)})
